@@ -843,9 +843,9 @@ class PGMCompiler:
         if self.warp_flag:
             x, y, z = self.compensate(x, y, z)
 
-        # translate points to new origin
-        x -= self.shift_origin[0]
-        y -= self.shift_origin[1]
+        # translate points to new origin (not in place: x and y may be the caller's own arrays)
+        x = x - self.shift_origin[0]
+        y = y - self.shift_origin[1]
 
         # flip x, y coordinates
         x, y = self.flip(x, y)
